@@ -6,7 +6,7 @@ claimed["C03"] = dict(
 )
 claimed["C04"] = dict(
     category="model_checking",
-    technique="explicit-state BFS over (index, worktree) states x every add/rm argument list of length 1-2 (files, directories, deleted-but-tracked, unknown, repeated), each transition compared with a map reference model",
+    technique="explicit-state BFS over (index, worktree) states x every add/rm argument list of length 1-2 (files, directories, deleted-but-tracked, unknown, repeated), each transition compared with a map reference model; plus a name sweep: every realizable subset (size <= 2/3) of a 22-name pool of sharp names (siblings around '/', names extending a directory name, spaces, '%', regexp metacharacters, non-ASCII, a 300-byte path, an empty file) x every path and directory prefix as rm / add argument; file<->directory type changes and un-normalised spellings in the alphabet",
     text="For every state reachable within the depth bound and every argument list of the alphabet, the post-state's index (decoded independently) and worktree bytes equal what the reference model allows: named files staged with the blob id of their bytes and the blob stored, tracked-but-missing paths unstaged, rm removing exactly tracked paths beneath the argument, untracked files untouched, unknown arguments refused atomically, re-adding unchanged files a no-op.",
     note="Trusted: gitfmt decoders and engine/model.go (relation; exit status left open where the statement is silent, e.g. overlapping arguments). Invocation from the repository root only.",
 )
@@ -18,25 +18,25 @@ claimed["C02"] = dict(
 )
 claimed["C07"] = dict(
     category="model_checking",
-    technique="explicit-state BFS over (HEAD snapshot, staging area) pairs with sharp sibling names (test/, test.c, test-data, test0); status probed in every state with a commit and compared with the exact set difference; every commit transition judged for refuse-iff-equal",
+    technique="explicit-state BFS over (HEAD snapshot, staging area) pairs with sharp sibling names (test/, test.c, test-data, test0); status probed in every state with a commit and compared with the exact set difference; every commit transition judged for refuse-iff-equal; plus a name sweep over every realizable subset (size <= 3/4) of the 22-name pool with status probed after every command",
     text="In every state reachable within the depth bound, the parsed 'Changes to be committed' section equals {new: I\\T, deleted: T\\I, modified: differing ids} computed from independently decoded index and HEAD tree (absent when equal); a commit with I = T is refused and creates no object and moves no branch; a commit with I != T succeeds.",
     note="Trusted: gitfmt, the status section parser (structure only: section header and the 13-column kind field). Unborn repositories have no HEAD snapshot and are not probed here (C18/C13 own them).",
 )
 claimed["C05"] = dict(
     category="model_checking",
-    technique="exhaustive name-set sweep (all realizable path sets up to size k over a 21-path universe with spaces, '-', '.', '+', '(', non-ASCII, depth 4), blob and sub-tree ids with 0x00/0x20/0x0a at each of the 20 positions, empty snapshot, plus a history BFS; after every commit Goit's read-back (reset --mixed + ls-files -s, cat-file -p of every tree) is compared with an independent tree decoder",
+    technique="exhaustive name-set sweep (all realizable path sets up to size k over a 21-path universe with spaces, '-', '.', '+', '(', non-ASCII, depth 4), blob and sub-tree ids with 0x00/0x20/0x0a at each of the 20 positions, empty snapshot, plus a history BFS; after every commit Goit's read-back (reset --mixed + ls-files -s, cat-file -p of every tree) is compared with an independent tree decoder; in-module harness h05: trees whose entry ids carry every byte value at every one of the 20 positions and names over the component alphabet, decoded by NewTree",
     text="For every enumerated commit, reset --mixed to it leaves a staging area equal to the independently flattened snapshot, ls-files -s prints it, and cat-file -p of the root and every sub-tree lists exactly the direct children with kind, id and complete name.",
     note="Trusted: gitfmt tree/commit/index decoders. Name sets above the size bound and names outside the universe are not covered.",
 )
 claimed["C09"] = dict(
     category="model_checking",
-    technique="explicit-state BFS over (HEAD snapshot, staging area, working tree) triples; every restore / restore --staged invocation over files, existing and deleted directories, unknown paths and pairs is compared with a map reference model",
+    technique="explicit-state BFS over (HEAD snapshot, staging area, working tree) triples; every restore / restore --staged invocation over files, existing and deleted directories, unknown paths and pairs is compared with a map reference model; plus a name sweep (every realizable subset of the 22-name pool x every path and directory prefix as restore / restore --staged argument), a seed where a committed directory was replaced by a staged file, objects above the zlib window size",
     text="For every reachable triple within the depth bound and every argument of the alphabet (incl. directory names that are substrings of other tracked names and a name with a regexp metacharacter), restore leaves exactly the named tracked files byte-identical to their staged blobs (present on disk or not), restore --staged leaves exactly the named entries equal to HEAD's, nothing else changes, and a path known to neither is refused with the state unchanged.",
     note="Trusted: gitfmt and engine/model.go. Exit status of a no-op restore --staged is left open, as the statement is silent.",
 )
 claimed["C13"] = dict(
     category="model_checking",
-    technique="explicit-state BFS over worktree edits (add, same-length edit, delete, remove directory, nested create) x index states x .goitignore present/absent; status probed in every state (also after changing every file's timestamp) and compared with set expressions over independently decoded index and worktree bytes",
+    technique="explicit-state BFS over worktree edits (add, same-length edit, delete, remove directory, nested create) x index states x .goitignore present/absent; status probed in every state (also after changing every file's timestamp) and compared with set expressions over independently decoded index and worktree bytes; plus a name sweep over every realizable subset (size <= 3/4) of the 22-name pool (edit, delete, untracked siblings, removed directory)",
     text="In every reachable state within the depth bound, the parsed 'Changes not staged for commit' and 'Untracked files' sections equal exactly {modified: tracked with different blob id, deleted: tracked and missing, untracked: on disk, not tracked, not ignored, outside .goit}; the report is identical after every timestamp was changed; unborn repositories included.",
     note="Trusted: gitfmt, the status parser. Ignore matching is judged only where the statement is unambiguous (top-level name/ entries, *.ext); other paths are left open.",
 )
@@ -48,13 +48,13 @@ claimed["C17"] = dict(
 )
 claimed["C10"] = dict(
     category="model_checking",
-    technique="explicit state space of the branch/HEAD machine: BFS over branch create/delete/rename, switch, switch -c, update-ref, commit, reset with prefix-related names (a, ab, a-b, a.b, b, main); every transition compared with a map model, branch --list and rev-parse probed in every state",
+    technique="explicit state space of the branch/HEAD machine: BFS over branch create/delete/rename, switch, switch -c, update-ref, commit, reset with prefix-related names (a, ab, a-b, a.b, b, main); every transition compared with a map model, branch --list and rev-parse probed in every state; in-module harness h10: DFS (depth 3/4) over add/delete/rename/update/switch on ONE live Refs+Head instance with names incl. upper/lower-case pairs and a.lock, IsBranchExist for every name and the refs directory after every call",
     text="For every reachable state within the depth bound: each operation changed exactly the branch map entry and HEAD name the model prescribes (update-ref never moves HEAD; nested or unknown refs, non-commit ids, duplicates, the current branch for -d are refused), a refused operation left the complete disk state unchanged, branch --list printed exactly the sorted stored names with the marker on HEAD's branch and rev-parse printed exactly the stored ids.",
     note="Trusted: gitfmt, engine/model.go. Nothing is explored beyond the depth bound (no random walks: different family).",
 )
 claimed["C11"] = dict(
     category="model_checking",
-    technique="explicit-state BFS over commit (9 message shapes: ': ', tab, several lines, 3-word continuation, edge blanks, non-ASCII) / switch / switch -c / reset / branch rename / delete histories incl. a 12-entry journal; reflog probed before and after every transition (differential append-only check) and reset --soft HEAD@{n} probed for every n in every state",
+    technique="explicit-state BFS over commit (9 message shapes: ': ', tab, several lines, 3-word continuation, edge blanks, non-ASCII) / switch / switch -c / reset / branch rename / delete histories incl. a 12-entry journal; reflog probed before and after every transition (differential append-only check) and reset --soft HEAD@{n} probed for every n in every state; the whole exploration is repeated under a generated negative non-whole-hour time zone",
     text="For every reachable state: reflog exits 0 and lists one well-formed entry per position; across every transition the earlier entries reappear unchanged and in order, shifted by the number of new entries; after a successful commit/switch/reset HEAD@{0} shows the commit HEAD resolves to with the action kind; reset HEAD@{n} lands on the commit reflog shows at n for every n (positions >= 10 included); entries that record no commit are refused without change.",
     note="Trusted: the reflog output parser (id7, position, kind, message fields), gitfmt. Identity and time-zone variation of the log line is exercised by C12's TZ sweep, not here.",
 )
@@ -114,7 +114,7 @@ claimed["C15"] = dict(
 )
 claimed["C16"] = dict(
     category="fault_enumeration",
-    technique="exhaustive single-fault enumeration: for every transition of the same corpus, every operation point of kind create/open/read/readdir/write/mkdir/rename/remove (incl. those of start-up loading) x errno class (EIO; thorough adds ENOSPC, EACCES) fails once without touching the disk; each run is compared with the fault-free run",
+    technique="exhaustive single-fault enumeration: for every transition of the same corpus, every operation point of kind create/open/read/readdir/write/mkdir/rename/remove (incl. those of start-up loading) x errno class (EIO; thorough adds ENOSPC, EACCES) fails once without touching the disk; each run is compared with the fault-free run; directory walks of path/filepath are routed through the seam as well",
     text="For every single-fault position of every corpus transition the command either produced exactly the fault-free exit status, output and disk state, or exited non-zero without crashing; it never reported success with a different state; afterwards the repository passed the independent fsck, previously intact objects were intact, and a branch that moved named exactly the fault-free tip.",
     note="Faults at operation granularity (a write either completes or fails; no short writes); stat calls excluded as the statement says. Deviation bound 1. Trusted: the seam, gitfmt.",
 )
